@@ -344,6 +344,11 @@ func Guard() {
 	if p == nil {
 		return
 	}
+	GuardValue(p)
+}
+
+// GuardValue reports a recovered panic value as a failing honest-path call.
+func GuardValue(p any) {
 	r := Current
 	if r == nil {
 		panic(p)
